@@ -22,7 +22,8 @@ BUDGET = {"C17": {"quick": 12000, "thorough": 400000}}
 WORK = "/sim/work"
 PATH = WORK + "/table.csv"
 
-NAMES = ("a\x0cb", "x\u2028y", "p\x85q", "v\x0bt", "A", "B2", "col c", "x,y", 'q"uote', "café", "Out", " lead", "trail ", "a;b", "'s", "#h", "R-1", "0", "T=1")
+NAMES = ("a\x0cb", "x\u2028y", "p\x85q", "v\x0bt", "A", "B2", "col c", "x,y", 'q"uote', "café", "Out", " lead", "trail ", "a;b", "'s", "#h", "R-1", "0", "T=1",
+         "two\nlines", "unit\n(mm)")     # a quoted header name may span lines: the rows below it are further down the file
 SPECIAL = (5e-324, -5e-324, 2.2250738585072014e-308, 1.7976931348623157e+308, -1.7976931348623157e+308, -0.0, 0.0,
            0.1, 1.0 / 3.0, 3.141592653589793, 1e-7, 123456789.12345679, 1e22, 9007199254740992.0, -2.5e-320, 1e300)
 
@@ -231,6 +232,9 @@ def execute(sc):
             if lines and lines[-1] == "":
                 lines.pop()
             head_names = state["head_names"]
+            hx = _header_line(head_names).count("\n")      # the header record may span lines: keep it one element
+            if hx:
+                lines = ["\n".join(lines[:hx + 1])] + lines[hx + 1:]
             row_line = state["row_line"]     # data row -> index into `lines`
             bad_cells = state["bad_cells"]   # column name -> data rows holding non-numeric text (a missing cell is text)
             for a in sc["actor"]:
@@ -314,7 +318,8 @@ def _judge_read(res, c, name, rd, mv, got, err, head_names, bad_cells, row_line,
         return
     if bad_cells.get(name):
         first = min(bad_cells[name])
-        true_line = row_line[first] + 1      # 1-based physical line of the first non-numeric cell of this column
+        # 1-based physical line of the first non-numeric cell of this column (the header record may span several lines)
+        true_line = row_line[first] + 1 + _header_line(head_names).count("\n")
         if err is None:
             res.violate("C17.cell", "C17.cell non-numeric-cell-not-reported",
                         "column %r has a non-numeric cell on line %d but the read succeeded" % (name, true_line))
